@@ -115,35 +115,40 @@ theorem send_total {k : Kcp} (h : InvK k) (buffer : Bytes) :
 
 /-! ### `Recv` -/
 
-theorem recv_total {k : Kcp} (h : InvK k) (buflen : Nat) : InvK (recv k buflen).k := by
+theorem recv_pres (k : Kcp) (buflen : Nat) : PresN 0 k (recv k buflen).k := by
   unfold recv
   simp only []
   split
-  · exact h
+  · exact PresN.refl k
   · split
-    · exact h
+    · exact PresN.refl k
     · have h1 : PresN 0 k { k with rcv_queue := (popMsg k.rcv_queue).rest } :=
         ⟨rfl, rfl, rfl, rfl, rfl, fun _ hb => hb, fun hb hq => ⟨hb, popMsg_dataLe hq⟩, Nat.le_refl _⟩
       have h2 := h1.trans (moveReady_pres _)
       generalize moveReady { k with rcv_queue := (popMsg k.rcv_queue).rest } = k1 at h2
       split
-      · apply h.of_pres (h2.trans (b := 0) _)
+      · apply h2.trans (b := 0)
         exact PresN.of_eq rfl rfl rfl rfl rfl rfl rfl rfl rfl
-      · exact h.of_pres h2
+      · exact h2
+
+theorem recv_total {k : Kcp} (h : InvK k) (buflen : Nat) : InvK (recv k buflen).k :=
+  h.of_pres (recv_pres k buflen)
 
 /-! ### `Update` -/
 
 theorem update_total {k : Kcp} (h : InvK k) (now : U32) :
-    (update k now).panic = false ∧ InvK (update k now).k := by
+    (update k now).panic = false ∧ InvK (update k now).k ∧
+    (update k now).k.acklist.length ≤ k.acklist.length := by
   have key : ∀ (k2 : Kcp) (tf : U32), PresN 0 k k2 →
       (flush { k2 with ts_flush := tf } true now).panic = false ∧
-      InvK (flush { k2 with ts_flush := tf } true now).k := by
+      InvK (flush { k2 with ts_flush := tf } true now).k ∧
+      (flush { k2 with ts_flush := tf } true now).k.acklist.length ≤ k.acklist.length := by
     intro k2 tf h2
     have h3 : InvK { k2 with ts_flush := tf } := by
       apply h.of_pres (h2.trans (b := 0) _)
       exact PresN.of_eq rfl rfl rfl rfl rfl rfl rfl rfl rfl
     have := flush_total h3 true now
-    exact ⟨this.1, this.2.1⟩
+    exact ⟨this.1, this.2.1, by rw [this.2.2.1]; exact Nat.zero_le _⟩
   unfold update
   simp only []
   have h1 : PresN 0 k (if k.updated = 0 then { k with updated := 1, ts_flush := now } else k) := by
@@ -161,7 +166,7 @@ theorem update_total {k : Kcp} (h : InvK k) (now : U32) :
   generalize (if reset = true then 0 else itimediff now k1.ts_flush) = slap
   split
   · exact key k2 _ h2
-  · exact ⟨rfl, h.of_pres h2⟩
+  · exact ⟨rfl, h.of_pres h2, h2.ackl⟩
 
 /-! ### the setters -/
 
@@ -207,21 +212,42 @@ theorem setMtu_total {k : Kcp} (h : InvK k) (m : Int) : InvK (setMtu k m).1 := b
           · show (m.toNat + IKCP_OVERHEAD) * 3 = ((BitVec.ofInt 32 m).toNat + IKCP_OVERHEAD) * 3
             rw [hm]
 
-theorem noDelay_total {k : Kcp} (h : InvK k) (a b c d : Int) : InvK (noDelay k a b c d) := by
-  have key : PresN 0 k (noDelay k a b c d) := by
-    unfold noDelay
-    simp only []
-    repeat' split
-    all_goals exact PresN.of_eq rfl rfl rfl rfl rfl rfl rfl rfl rfl
-  exact h.of_pres key
+theorem noDelay_pres (k : Kcp) (a b c d : Int) : PresN 0 k (noDelay k a b c d) := by
+  unfold noDelay
+  simp only []
+  repeat' split
+  all_goals exact PresN.of_eq rfl rfl rfl rfl rfl rfl rfl rfl rfl
 
-theorem wndSize_total {k : Kcp} (h : InvK k) (s r : Int) : InvK (wndSize k s r) := by
-  have key : PresN 0 k (wndSize k s r) := by
-    unfold wndSize
-    simp only []
-    repeat' split
-    all_goals exact PresN.of_eq rfl rfl rfl rfl rfl rfl rfl rfl rfl
-  exact h.of_pres key
+theorem noDelay_total {k : Kcp} (h : InvK k) (a b c d : Int) : InvK (noDelay k a b c d) :=
+  h.of_pres (noDelay_pres k a b c d)
+
+theorem wndSize_pres (k : Kcp) (s r : Int) : PresN 0 k (wndSize k s r) := by
+  unfold wndSize
+  simp only []
+  repeat' split
+  all_goals exact PresN.of_eq rfl rfl rfl rfl rfl rfl rfl rfl rfl
+
+theorem wndSize_total {k : Kcp} (h : InvK k) (s r : Int) : InvK (wndSize k s r) :=
+  h.of_pres (wndSize_pres k s r)
+
+theorem setMtu_acklist (k : Kcp) (m : Int) : (setMtu k m).1.acklist = k.acklist := by
+  unfold setMtu
+  repeat' split
+  all_goals rfl
+
+theorem send_acklist (k : Kcp) (b : Bytes) : (send k b).k.acklist = k.acklist := by
+  rw [send_eq]
+  simp only []
+  split
+  · rfl
+  · split
+    · rfl
+    · split
+      · rfl
+      · generalize (if (List.drop (sendExt k b) b).length ≤ k.mss.toNat then 1 else _) = count
+        split
+        · rfl
+        · split <;> rfl
 
 /-! ### operation lists -/
 
@@ -271,7 +297,7 @@ theorem step_total {k : Kcp} (h : InvK k) (op : Op) : (step k op).panic = false 
   | recv n => exact ⟨rfl, recv_total h n⟩
   | input d r a now => exact ⟨(input_total h d r a now).1, (input_total h d r a now).2.1⟩
   | flush full now => exact ⟨(flush_total h full now).1, (flush_total h full now).2.1⟩
-  | update now => exact update_total h now
+  | update now => exact ⟨(update_total h now).1, (update_total h now).2.1⟩
   | check _ => exact ⟨rfl, h⟩
   | peekSize => exact ⟨rfl, h⟩
   | waitSnd => exact ⟨rfl, h⟩
@@ -297,5 +323,60 @@ theorem Reachable.invK {k : Kcp} (h : Reachable k) : InvK k := by
   induction h with
   | new conv => exact invK_new conv
   | step op _ _ ih => exact (step_total ih op).2
+
+/-! ### the ack list along a history -/
+
+/-- bound on the ack-list length as a function of the operations alone: an `Input` of `n` bytes may
+add `n / 24` entries, a flush resets to zero, nothing else adds -/
+def ackBound (acc : Nat) : List Op → Nat
+  | [] => acc
+  | .input d _ _ _ :: rest => ackBound (acc + d.length / IKCP_OVERHEAD) rest
+  | .flush _ _ :: rest => ackBound 0 rest
+  | _ :: rest => ackBound acc rest
+
+theorem ackBound_mono {a b : Nat} (h : a ≤ b) (ops : List Op) : ackBound a ops ≤ ackBound b ops := by
+  induction ops generalizing a b with
+  | nil => exact h
+  | cons op rest ih =>
+    cases op <;> simp only [ackBound]
+    all_goals first | exact ih h | exact ih (Nat.add_le_add_right h _) | exact Nat.le_refl _
+
+/-- one operation: only `Input` can lengthen the ack list, by at most `|d| / 24` -/
+theorem step_acklist {k : Kcp} (h : InvK k) (op : Op) :
+    (step k op).k.acklist.length ≤
+      (match op with
+       | .input d _ _ _ => k.acklist.length + d.length / IKCP_OVERHEAD
+       | .flush _ _ => 0
+       | _ => k.acklist.length) := by
+  cases op with
+  | send b => show (send k b).k.acklist.length ≤ _; rw [send_acklist]; exact Nat.le_refl _
+  | recv n => exact (recv_pres k n).ackl
+  | input d r a now =>
+    have h1 := (input_total h d r a now).2.2.2.2.1
+    have h2 := pushSpec_le k.conv (d.length / IKCP_OVERHEAD + 1) d
+    exact Nat.le_trans h1 (Nat.add_le_add_left h2 _)
+  | flush full now => show (flush k full now).k.acklist.length ≤ 0; rw [(flush_total h full now).2.2.1]; exact Nat.le_refl _
+  | update now => exact (update_total h now).2.2
+  | check _ => exact Nat.le_refl _
+  | peekSize => exact Nat.le_refl _
+  | waitSnd => exact Nat.le_refl _
+  | setMtu m => show (setMtu k m).1.acklist.length ≤ _; rw [setMtu_acklist]; exact Nat.le_refl _
+  | noDelay a b c d => exact (noDelay_pres k a b c d).ackl
+  | wndSize s r => exact (wndSize_pres k s r).ackl
+
+theorem run_acklist {k : Kcp} (h : InvK k) (acc : Nat) (hacc : k.acklist.length ≤ acc) (ops : List Op) :
+    (run k ops).k.acklist.length ≤ ackBound acc ops := by
+  induction ops generalizing k acc with
+  | nil => exact hacc
+  | cons op rest ih =>
+    have hs := step_total h op
+    have ha := step_acklist h op
+    unfold run
+    rw [if_neg (by rw [hs.1]; decide)]
+    cases op <;> simp only [ackBound] <;> simp only [] at ha
+    all_goals first
+      | exact ih hs.2 _ (Nat.le_trans ha hacc)
+      | exact ih hs.2 _ (Nat.le_trans ha (Nat.add_le_add_right hacc _))
+      | exact ih hs.2 _ ha
 
 end KcpVerif.Total
